@@ -534,7 +534,7 @@ class _Elemwise:
             fill_value = fill_value_array[(0,) * fill_value_array.ndim]
         except IndexError:
             zero_args = tuple(
-                arg.fill_value if isinstance(arg, COO) else _zero_of_dtype(arg.dtype) for arg in self.args
+                arg.fill_value if isinstance(arg, COO) else _zero_of_dtype(np.asarray(arg).dtype) for arg in self.args
             )
             fill_value = self.func(*zero_args, **self.kwargs)[()]
 
